@@ -268,6 +268,12 @@ var c06Targets = map[string]func() any{
 	"map[int]": func() any { return new(map[int]string) }, "map[text]": func() any { return new(map[TMK]int) }, "[2]string": func() any { return new([2]string) },
 	"[]duration": func() any { return new([]time.Duration) }, "map[string]duration": func() any { return new(map[string]time.Duration) },
 	"*duration": func() any { return new(*time.Duration) }, "**string": func() any { return new(**string) },
+	"struct{A}": func() any {
+		return new(struct {
+			A  int
+			Ks string `json:"éks"`
+		})
+	},
 	"struct(,string)": func() any {
 		return new(struct {
 			X int           `json:"x,string"`
@@ -442,8 +448,31 @@ func c06CyclicTargets(c *Ctx) {
 	}
 }
 
+// c06MemberNames: member names of every length around the decoder's 64-byte scratch buffer, made of letters whose
+// simple case folding is longer or shorter than the letter (k -> U+212A, s -> U+017F and back), behind a non-ASCII
+// letter that takes the name off the ASCII path, into struct targets
+func c06MemberNames(c *Ctx) {
+	for _, first := range []string{"é", "", "\xc3"} {
+		for _, letter := range []string{"k", "s", "K", "x", "\u017f", "\u212a"} {
+			for n := 0; n <= 140; n++ {
+				if n > 70 && n%8 > 1 {
+					continue
+				}
+				name := first + strings.Repeat(letter, n)
+				for _, doc := range []string{`{"` + name + `":1,"A":2}`, `{"A":1,"` + name + `":{"` + name + `":[]},"a":3}`} {
+					for _, tn := range []string{"rec", "struct{A}"} {
+						c.Case()
+						c06Decode(c, c06Case{Kind: "doc", Doc: doc, Target: tn}, []byte(doc))
+					}
+				}
+			}
+		}
+	}
+}
+
 func c06Extra(c *Ctx) {
 	c06CyclicTargets(c)
+	c06MemberNames(c)
 	// cycles and dead-end chains at the cycle detector's threshold
 	for _, n := range []int{1, 2, 3, 999, 1000, 1001, 2500} {
 		for _, via := range []string{"ptr", "slice", "map", "iface"} {
